@@ -30,9 +30,14 @@ TEXT = {
                          "one growing index BitWriteStreamT::write does not test itself",
     "C11.pool-reset": "clear() of the task pool resets every bookkeeping field (same rule instances as C07.reset): a stale high-water mark makes emplace() "
                       "hand out slot INVALID",
+    "C11.storage-align": "TransitionT<Payload>::storage and TaskT<Payload>::storage (raw buffers a payload is placement-constructed into and read back from "
+                         "by reinterpret_cast) are at least sizeof(Payload) large and lie at a multiple of alignof(Payload) in an object whose own alignment "
+                         "and array stride are multiples of it - static_assert witness over payload types of alignment 1..32",
+    "C11.after-remove": "in FullControlT::updatePlan (both payload flavours) nothing reads the task behind the iterator - *it, it->, or a reference bound to "
+                        "either - after it.remove() released the slot (its origin / destination overlay the free list's links) until the iterator advances",
     "C11.memcpy": "overwriteWith / fill / reinterpret are instantiated only with trivially copyable operands, destination at least as large as the source",
 }
-MIN_INSTANCES = {"C11.fork-index": 8, "C11.no-alloc": 3, "C11.bounded-growth": 2, "C11.one-past": 1, "C11.views": 1, "C11.shifts": 5, "C11.memcpy": 2}
+MIN_INSTANCES = {"C11.fork-index": 8, "C11.no-alloc": 3, "C11.bounded-growth": 2, "C11.one-past": 1, "C11.views": 1, "C11.shifts": 5, "C11.memcpy": 2, "C11.storage-align": 8, "C11.after-remove": 1}
 ALLOWED_INCLUDES = {"<stdint.h", "<string.h", "<new", "<typeindex", "<intrin.h"}
 ALLOC_NAMES = {"malloc", "calloc", "realloc", "free", "aligned_alloc", "strdup", "operator new", "operator delete", "operator new[]", "operator delete[]",
                "posix_memalign", "alloca"}
@@ -63,6 +68,74 @@ def check(ctx, F):
     if C08.has_serial(F):
         C08.check_budget(C03._Alias(ctx, {"C08.budget": "C11.stream-budget"}), F)
     C07.check_reset(C03._Alias(ctx, {"C07.reset": "C11.pool-reset"}), F)
+    check_after_remove(ctx, F)
+
+
+def check_after_remove(ctx, F):
+    """typestate of a plan iterator: after it.remove() the slot is on the free list (origin / destination overlay prev / next): no *it, it->,
+    and no use of a reference or pointer local bound to either, until operator++ moves the iterator on"""
+    from ..ir import sym_paths
+    for fid, b in F.bodies.items():
+        if not b["inst"] or b["name"] != "updatePlan" or b.get("cls") not in ("FullControlT",):
+            continue
+        site = "FullControlT<%s>::updatePlan" % ("void" if F.spec(b["tid"]) in ("void", "voidpayload") else F.spec(b["tid"]))
+        iters = set()
+        for x in walk(b["body"]):
+            if x.get("k") == "call" and "f" in x and F.fn(x["f"])["name"] == "remove":
+                o = strip(x.get("obj") or {})
+                if o.get("k") == "var" and o.get("d") == "local":
+                    iters.add(o["n"])
+        if not iters:
+            continue
+        bad = None
+        n = 0
+
+        def deref_of(node):
+            """iterator local dereferenced by this node (operator* / operator-> on it), or None"""
+            node = strip(node)
+            if node.get("k") == "call" and "f" in node and F.fn(node["f"])["name"] in ("operator*", "operator->"):
+                o = strip(node.get("obj") or (node.get("a") or [{}])[0])
+                if o.get("k") == "var" and o.get("n") in iters:
+                    return o["n"]
+            return None
+
+        for p in sym_paths(F, fid, 2):
+            ctx.paths += 1
+            released = set()
+            bound = {}          # ref / pointer local -> iterator it was taken from
+            for ev in p:
+                node = ev[1] if len(ev) > 1 and isinstance(ev[1], dict) else None
+                if node is None:
+                    continue
+                if ev[0] == "decl":
+                    vs = node.get("vars") or [node]
+                    for v in vs:
+                        if (v.get("ref") or v.get("ptr")) and v.get("init") is not None:
+                            for y in walk(v["init"]):
+                                d = deref_of(y)
+                                if d:
+                                    bound[v["n"]] = d
+                # uses
+                for y in walk(node if ev[0] != "decl" else {"k": "seq", "s": [v.get("init") or {} for v in (node.get("vars") or [node])]}):
+                    d = deref_of(y)
+                    if d and d in released:
+                        bad = "`%s` is dereferenced after %s.remove()" % (d, d)
+                    if y.get("k") == "var" and y.get("d") == "local" and bound.get(y.get("n")) in released:
+                        bad = "`%s` (bound to *%s) is used after %s.remove() released the task" % (y["n"], bound[y["n"]], bound[y["n"]])
+                if ev[0] == "call" and ev[2] is not None:
+                    nm = F.fn(ev[2])["name"]
+                    o = strip(node.get("obj") or {})
+                    if o.get("k") == "var" and o.get("n") in iters:
+                        if nm == "remove":
+                            released.add(o["n"])
+                            n += 1
+                        elif nm == "operator++":
+                            released.discard(o["n"])
+        ctx.instance("C11.after-remove", site, {"function": site, "loc": F.floc(fid), "iterators": sorted(iters), "removes_on_paths": n})
+        if bad:
+            ctx.violation("C11.after-remove", site, "%s (%s)" % (site, F.floc(fid)),
+                          bad + ": the slot is on the free list, its origin / destination fields now hold the list's links (INVALID = 0xFFFF): the read "
+                          "yields garbage and the mark it addresses lies outside the bit array", {})
 
 
 _FORK_SUB = re.compile(r"compo\w+\._items\[\(([\w:.]*)\.forkId-#1\)\]")
@@ -433,4 +506,6 @@ def final(ctx):
     # unit counts are array extents: contain() is decided by a static_assert witness (shared with C18.helpers)
     from . import helpwit
     helpwit.run(ctx, "C11.views", only={"contain"})
+    from . import alignwit
+    alignwit.run(ctx, "C11.storage-align")
 
